@@ -385,8 +385,8 @@ var hooks = []string{"loop.start", "loop.empty", "loop.peeked", "loop.armed", "l
 var offs = []time.Duration{-time.Second, 0, 100 * time.Microsecond, 499 * time.Microsecond, 500 * time.Microsecond, 501 * time.Microsecond,
 	time.Millisecond, 2 * time.Millisecond, 10 * time.Millisecond, time.Second, time.Hour}
 var sleeps = []time.Duration{1, 100 * time.Microsecond, 400 * time.Microsecond, 500 * time.Microsecond, time.Millisecond, 1500 * time.Microsecond,
-	2 * time.Millisecond, 9500 * time.Microsecond, 10 * time.Millisecond, time.Second}
-var keys = []string{"a", "b", "c", "d"}
+						2 * time.Millisecond, 9500 * time.Microsecond, 10 * time.Millisecond, time.Second}
+var keys = []string{"a", "b", "c", "d", ""} // the zero-value key is a key like any other
 
 // placedOps: what is issued while the loop is parked at a hook.
 var placedKinds = []string{"enq-new-early", "enq-new-late", "enq-same-early", "enq-same-late", "deq-head", "deq-other", "deq-absent", "close", "enq-new-now"}
